@@ -47,6 +47,9 @@ func New() *Controller {
 		if strings.HasPrefix(p, "sc.disp.") {
 			return "disp"
 		}
+		if strings.HasPrefix(p, "sc.recv.") {
+			return "recv" // a goroutine inside Receive (the client's dispatcher unless bound otherwise)
+		}
 		return ""
 	}
 	return c
@@ -69,6 +72,16 @@ func (c *Controller) Bind(name string) {
 	c.mu.Lock()
 	c.names[goid()] = name
 	delete(c.done, name)
+	c.mu.Unlock()
+}
+
+// GoID returns the id of the calling goroutine.
+func GoID() int64 { return goid() }
+
+// BindID names the goroutine with the given id.
+func (c *Controller) BindID(id int64, name string) {
+	c.mu.Lock()
+	c.names[id] = name
 	c.mu.Unlock()
 }
 
